@@ -66,6 +66,8 @@ INT_VALUES = [0, 1, 2, 3, 7, 8, 10, 31, 32, 63, 64, 100, 255, 256, 1000, 65535, 
 FLT_VALUES = [0.0, 0.5, 1.0, 1.5, 2.0, 2.25, 3.75, 10.0, 0.1, 0.125, 100.0, 1e3, 1e-3, 1e10, 123456.789, 2.5e-7, 1e100, 4294967296.0]
 STR_VALUES = ["", "a", "b", "ab", "A", "z", "é", "日本", "\U0001F600", "�", "\U00010000", "a\U00010000", " ", "x y", "<&>", "\"q\"",
               "tab\there", "nl\nhere", "\\", "%1", "\x41", "\x7f", " ", "first\rsecond", "a\r\nb", "\r", "x\r"]
+ORDER_STRINGS = ["\U0001F600", "\uFF5E", "\uFFFD", "\uE000", "\U00010000", "\U0010FFFF", "a\U0001F600", "a\uFF5E", "\uD7FF", "\U0001F600b",
+                 "\uFF5Eb", "\uFFFF", "\U0001F600\uFF5E", "\uFF5E\U0001F600", "\u65E5\U00020000", "\u65E5\uF900"]
 MODES = ["ModeA", "ModeB", "ModeC", "ModeD"]
 OPTS = ["OptNone", "OptX", "OptY", "OptZ"]
 
@@ -107,6 +109,12 @@ def gen(rng, t, depth):
             return (rng.choice(("&", "|", "^")), "bool", gen(rng, "bool", depth - 1), gen(rng, "bool", depth - 1))
         ot = rng.choice(("int", "int", "double", "str", "str", "bool"))
         ops = ("==", "!=", "<", "<=", ">", ">=", "===", "!==") if ot != "bool" else ("==", "!=")
+        if ot == "str" and rng.random() < 0.4:
+            # strings whose order by UTF-16 code unit (ECMAScript, QString) differs from their order by code point / UTF-8 byte: a
+            # supplementary character against U+E000..U+FFFF, alone, after a common prefix, in front of a tail
+            a, b = rng.sample(ORDER_STRINGS, 2)
+            return (rng.choice(("<", "<=", ">", ">=", "<", ">", "==", "!=")), "bool", ("lit", "str", a, strings.js_literal(rng, a)),
+                    ("lit", "str", b, strings.js_literal(rng, b)))
         return (rng.choice(ops), "bool", gen(rng, ot, depth - 1), gen(rng, ot, depth - 1))
     if t == "str":
         return ("+", "str", gen(rng, "str", depth - 1), gen(rng, "str", depth - 1))
